@@ -413,6 +413,8 @@ def run_check(mod, tier, seed, replay=None):
     else:
         lines = read_corpus(prop) + list(mod.corpus())
         search_tier = "thorough" if (broken_obligations or anchors_changed) else tier
+        # a generator may look at WIDENED to keep its widened stream within minutes (the cap below samples it anyway)
+        mod.WIDENED = (search_tier != tier and not broken_obligations)
         gen = list(mod.generate(search_tier, rng, hist))
         cap = int(os.environ.get("VERIF_WIDEN_CAP", "150000"))
         if search_tier != tier and not broken_obligations and len(gen) > cap:
